@@ -32,6 +32,7 @@ class RealKa:
         self.flagged = 0         # respond-flagged KEEPALIVEs the server sent
         self.to_at_last = 0      # number of time-out callbacks seen when the last KEEPALIVE arrived
         self.blocked = False
+        self.faulted = False     # the connection is half-dead (writes fail, nothing arrives)
         self.base = 0            # time the current connection was made
         self.at_base = {'timeouts': 0, 'closes': 0, 'enqKa': 0, 'txKa': 0, 'txEcho': 0}     # cumulative counters at that moment
 
@@ -44,6 +45,11 @@ class RealKa:
         self.to_at_last = o['timeouts']
         self.flagged = 0
         self.blocked = False
+        self.faulted = False
+
+    def write_fault(self):
+        self.ex.do(['write_fault', 'c'])
+        self.faulted = True
 
     def tick(self):
         self.ex.do(['advance', UNIT_MS])
@@ -74,7 +80,8 @@ class RealKa:
             return ('C15.no_false_timeout', 'on_keepalive_timeout invoked at time %d, last KEEPALIVE at %d, lifetime %d' % (self.now, self.last, L))
         if o['closes'] == 0 and self.now - self.last >= 2 * L and cum['timeouts'] <= self.to_at_last:
             return ('C15.timeout_detected', 'server silent since %d, now %d (lifetime %d): on_keepalive_timeout not invoked' % (self.last, self.now, L))
-        if o['timeouts'] == 0 and o['closes'] == 0:
+        if o['timeouts'] == 0 and o['closes'] == 0 and not self.faulted:
+            # (a client whose writes fail may stop producing keep-alives: only the detection of the silence is demanded of it)
             if o['enqKa'] != (self.now - self.base) // P:
                 return ('C15.periodic', '%d respond-flagged KEEPALIVEs queued by time %d on the connection made at %d, period %d%s' % (
                     o['enqKa'], self.now, self.base, P, ' (the transport is not accepting writes)' if self.blocked else ''))
@@ -143,6 +150,8 @@ def _apply(real, name, args, before):
         real.unblock()
     elif name == 'Reconnect':
         real.reconnect()
+    elif name == 'WriteFault':
+        real.write_fault()
     else:
         raise common.Machinery('unknown KeepAlive action %r' % name)
     return None
@@ -164,7 +173,8 @@ PAIRS = [(2, 3), (3, 2), (2, 2), (1, 4)]
 
 def check(v):
     from concurrent.futures import ThreadPoolExecutor
-    cfgs = ['KeepAlive_p%dl%d.cfg' % pl for pl in PAIRS] + ['KeepAlive_reconnect_wide.cfg' if common.tier() == 'thorough' else 'KeepAlive_reconnect.cfg']
+    cfgs = ['KeepAlive_p%dl%d.cfg' % pl for pl in PAIRS] + ['KeepAlive_reconnect_wide.cfg' if common.tier() == 'thorough' else 'KeepAlive_reconnect.cfg',
+                                                              'KeepAlive_fault.cfg']
 
     def one(c):
         return c, tlc.run('KeepAlive', c, workers=2, timeout=900, name='ka_' + c.replace('.cfg', ''))
@@ -188,3 +198,5 @@ def check(v):
         graphreplay.replay(v, 'KeepAlive', 'KeepAlive_p%dl%d.cfg' % (p, l), _mk(p, l), _apply, _compare, _state, prop='C15',
                            label='ka_p%dl%d' % (p, l), describe=desc)
     graphreplay.replay(v, 'KeepAlive', rcfg, _mk(2, 3), _apply, _compare, _state, prop='C15', label='ka_reconnect', describe=desc)
+    # a half-dead connection at every point: the sender dies at its next write, the watchdog must report the silence all the same
+    graphreplay.replay(v, 'KeepAlive', 'KeepAlive_fault.cfg', _mk(2, 3), _apply, _compare, _state, prop='C15', label='ka_fault', describe=desc)
